@@ -369,14 +369,24 @@ class FaultController:
             return None
         if env.w.choose(2, "fault@%s" % rec["kind"]) == 0:
             return None
-        k = env.w.choose(len(self.kinds), "fault-kind")
+        # the errno is opaque to the crate unless it asks for ErrorKind: decided lazily (io::Error::kind)
+        k = 0
+        self.lazy_kind = True
         occ = sum(1 for r in env.trace[:-1] if r.get("op_seq") == env.op_seq and r["kind"] == rec["kind"] and _pkey(r.get("path")) == _pkey(rec.get("path")))
         self.fired = {"kind": rec["kind"], "path": rec.get("path"), "errno": self.kinds[k], "occurrence": occ, "action": rec["i"]}
         if rec["kind"] == "write" and self.short_write and rec.get("data") is not None and rec.get("fobj") is not None:
             if env.w.choose(2, "fault-short-write") == 1:
                 self.fired["short"] = True
-                return "ShortWrite:" + self.kinds[k]
-        return self.kinds[k]
+                return "ShortWrite:?"
+        return "?"
+
+    def decide_kind(self, env, err):
+        """Called when the crate inspects the kind of the injected error: now the errno matters."""
+        k = env.w.choose(len(self.kinds), "fault-kind")
+        err.kind = self.kinds[k]
+        if self.fired is not None:
+            self.fired["errno"] = self.kinds[k]
+        return err.kind
 
 
 def _pkey(p):
@@ -1849,6 +1859,8 @@ def _ioerror_other(I, a, d):
 @T.path("std::io::Error::kind")
 def _ioerror_kind(I, a, d):
     e = peel(a[0])
+    if e.kind == "?" and I.env.fault is not None:
+        I.env.fault.decide_kind(I.env, e)
     return error_kind(e.kind if e.kind in __import__("mirsym.interp", fromlist=["STD_ENUMS"]).STD_ENUMS["ErrorKind"] else "Other")
 
 
@@ -2025,3 +2037,14 @@ def _bufread_read_line(I, a, d):
 @T.trait("BufRead", "read_until")
 def _bufread_read_until(I, a, d):
     raise Inconclusive("BufRead::read_until")
+
+
+@T.trait("Seek", "stream_position")
+def _stream_position(I, a, d):
+    f = peel(a[0])
+    if isinstance(f, NamedTempFileObj):
+        f = f.file
+    if not isinstance(f, FileObj):
+        raise Inconclusive("stream_position on %r" % (f,))
+    # an O_APPEND descriptor reports offset 0 until its first write; writes then move it to the end
+    return OK(f.offset)
